@@ -199,7 +199,7 @@ func runC15(c *Ctx, variant int) {
 	d.feed(wire, cuts)
 
 	// --- read
-	r := &c06Reader{d: d, c: c, api: api, max: maxSize}
+	r := &c06Reader{d: d, c: c, api: api, max: maxSize, chain: w.Chance(1, 2)}
 	func() {
 		defer func() {
 			if x := recover(); x != nil {
